@@ -2224,6 +2224,7 @@ func (s *Server) ServeConn(c net.Conn) error {
 	}
 	defer s.releaseConcurrency()
 
+	s.setState(c, StateNew)
 	s.open.Add(1)
 
 	err := s.serveConnCounted(c, false)
